@@ -57,12 +57,13 @@ check('C14', 'model_checking',
 
 check('C16', 'model_checking',
       'TLC enumerates (start, step, count) per axis in scaled integers with spec/Grid.tla (invariants ExactCount, OnLattice, AllOnce, Order): '
-      '5 starts x 10 steps (0.1, 0.05, 0.7, 0.3, 0.001, 0.333, negative steps) x all counts 1..40 (1..100 thorough) on each axis plus small '
+      '5 starts x 11 steps (0.1, 0.05, 0.7, 0.3, 0.001, 0.333, negative steps, 0) x all counts 1..40 (1..100 thorough) on each axis plus small '
       'three-axis products, and dumps the expected point list of every case. Every case is replayed: near_field_coord, len(e_field), '
       'len(h_field), the NEAR ELECTRIC/MAGNETIC FIELDS blocks of the report, far_field.zen/azi and the rows of both far-field tables must show '
       'exactly these points in this order; a sampled fraction also goes through main().',
-      'Trusted: TLC, report parser. Values compared at 1e-9 relative, printed coordinates at their printed precision. Step 0 is outside the '
-      'enumerated domain.',
+      'Trusted: TLC, report parser. Values compared at 1e-9 relative, printed coordinates at their printed precision. Step 0 (all points of an axis coincide) '
+      'is enumerated for the API; the command line refuses it with a count above 1. Half of the far-field requests reuse and '
+      'mutate the same Angle objects; every near-field request is followed by a second one on the same object that differs by a hair.',
       'TLC enumeration with Grid.tla + exhaustive spec-to-code replay', 'DESIGN.md 4 C16')
 
 check('C20', 'fault_enumeration',
